@@ -30,13 +30,36 @@ def run(rep):
                    'C03 rules: the stage map holds exactly the using stages']
     crate = ogp.crate
     # the top-level function: holds the pipeline-layout template; the smallest such function (the public wrappers inline it)
-    tops = []
+    # the innermost function in whose summary the pipeline-layout template and the range meet (the template may live in a helper that takes
+    # the range as a parameter; the public wrappers inline everything and come last)
+    cg = crate.call_graph()
+
+    def closure_size(q0):
+        seen, st_ = set(), [q0]
+        while st_:
+            x = st_.pop()
+            if x in seen:
+                continue
+            seen.add(x)
+            st_.extend(cg.get(x, ()))
+        return len(seen)
+    cands = []
     for q, v in ogp.summaries.items():
         if v is None:
             continue
-        pl = E.find_templates(v, lambda t: t[3] == q and 'push_constant_ranges : & [' in E.tmpl_text(t))
-        if pl:
-            tops.append((q, pl[0]))
+        for plt in E.find_templates(v, lambda t: 'push_constant_ranges : & [' in E.tmpl_text(t)):
+            rng_ = hole_after_seq(plt, 'push_constant_ranges : & [')
+            if rng_ is not None and E.find_templates(rng_, lambda t: 'wgpu :: PushConstantRange {' in E.tmpl_text(t)):
+                cands.append((closure_size(q), q, plt))
+                break
+    cands.sort(key=lambda c: c[:2])
+    tops = [(cands[0][1], cands[0][2])] if cands else []
+    if not tops:
+        # no function joins the two: report on the function holding the pipeline-layout template
+        for q, v in ogp.summaries.items():
+            pl = E.find_templates(v, lambda t: t[3] == q and 'push_constant_ranges : & [' in E.tmpl_text(t)) if v is not None else []
+            if pl:
+                tops.append((q, pl[0]))
     rep.floor('top-level function using the push constant range', len(tops), 1)
     if not tops:
         return
